@@ -7,7 +7,13 @@
    5. slice "forge": TLC enumerates the containers a party without the CA key can assemble from genuine material by
       up to MaxEdits COOPERATING edits (content, signed attributes, signature value, every field outside the signature);
       each is built on the real fixture bytes and verified by the real code; seeded: more edits, byte noise, DER byte sweeps
-   6. every real decision / verification outcome is validated by TLC against the trace specification."""
+   6. slice "window" (round 2): validity bounds as the document WRITES them (digits + none | Z | (+|-)hh:mm), rendered relative
+      to the wall clock (the public entrances decide at the real clock) and to fixed dates; the real find_grant is also asked at
+      explicit instants one second either side of every bound; a bound is an instant, its designator is notation
+   7. slice "forge", co-signed containers (round 2): a SignedData may carry further SignerInfos from the genuine material
+      (incl. the edited content signed by the participant's own identity key); admissible only if ONE SignerInfo is both a
+      valid signature of the configured CA and about the transported content; both transport and both DER orders are realised
+   8. every real decision / verification outcome is validated by TLC against the trace specification."""
 import fnmatch, glob, json, os, re
 import common
 from common import log, tlc, outdir, ToolError
@@ -18,19 +24,19 @@ FIX = os.path.join(common.ROOT, "fixtures", "access")
 TIERS = {
     "quick": dict(mc=[("MC_AccessControl_q_sig.cfg", 2), ("MC_AccessControl_q_crit.cfg", 8), ("MC_AccessControl_q_rules.cfg", 8),
                       ("MC_AccessControl_q_relay.cfg", 8), ("MC_AccessControl_q_dom.cfg", 8), ("MC_AccessControl_q_grants.cfg", 8),
-                      ("MC_AccessControl_q_gov.cfg", 8), ("MC_AccessControl_q_forge.cfg", 8)],
+                      ("MC_AccessControl_q_window.cfg", 8), ("MC_AccessControl_q_gov.cfg", 8), ("MC_AccessControl_q_forge.cfg", 8)],
                   random=dict(runs=300, events=40)),
     "thorough": dict(mc=[("MC_AccessControl_q_sig.cfg", 2), ("MC_AccessControl_t_crit.cfg", 8), ("MC_AccessControl_t_rules.cfg", 8),
                          ("MC_AccessControl_q_relay.cfg", 8), ("MC_AccessControl_t_dom.cfg", 8), ("MC_AccessControl_t_grants.cfg", 8),
-                         ("MC_AccessControl_q_gov.cfg", 8), ("MC_AccessControl_t_forge.cfg", 8)],
+                         ("MC_AccessControl_t_window.cfg", 8), ("MC_AccessControl_q_gov.cfg", 8), ("MC_AccessControl_t_forge.cfg", 8)],
                      random=dict(runs=15000, events=60)),
 }
 ASSUME = [
     "documents are bounded by the slices of spec/AccessControl.tla (constants Slice/Big in spec/MC_AccessControl_*.cfg): <=2 grants, <=3 rules, <=2 criteria, pattern alphabet {A,A*,*,?B,[AB]} over names {A,AB,B}; random runs use 12 patterns over 6 names, <=3 grants x <=3 rules",
     "the decision function is exercised below the signature check (cfg accessor verif_install_unsigned = the steps of validate_local_permissions after verify_signature); partitions reach the code through verif_check_entity because the public check_* methods always pass an empty partition list",
     "left open (every reading accepted): entities without partitions, topics whose governance rule enables only one of read/write access control, relay permission for topics, unprotected access for a subject without any currently valid grant",
-    "data tags are not exercised (the public API never passes any); validity windows are far from the wall clock (2001/2002, 2998/2999)",
-    "forged containers: edits are combined up to MaxEdits (quick 2, thorough 3; seeded runs 5) over the edit alphabet of AccessControl!ForgeEdit (12 fields outside the signature, each replaced by 1-6 concrete values per class); digests are taken as collision free; byte noise is not combined with the one-bit edits of the alphabet",
+    "data tags are not exercised (the public API never passes any); validity classes valid/expired/future are far from the wall clock (2001/2002, 2998/2999); validity windows (slice window) have their bounds 30 min / 2 h (seeded: 15 min .. 20 h) from the reference instant, written without designator, with Z or with an offset of -12:00..+14:00; the reference is the wall clock at the start of the run (a run takes milliseconds) or one of three fixed dates; the grant lookup is not judged at exactly not_after (inclusive or exclusive end left open); no fractional seconds, no leap seconds",
+    "forged containers: edits are combined up to MaxEdits (quick 2, thorough 3; seeded runs 5) over the edit alphabet of AccessControl!ForgeEdit (12 fields outside the signature, each replaced by 1-6 concrete values per class); digests are taken as collision free; byte noise is not combined with the one-bit edits of the alphabet; co-signed containers: TLC adds at most one unedited co-SignerInfo (adding it is one of the MaxEdits edits), seeded runs up to two, also edited; the order of the signerInfos SET is not part of the abstract container (4 realisations: transport order x DER order)",
     "signature clause: 5 committed signed fixtures; single-byte alterations (quick: xor 0x01/0x20 at every position of one permissions and one governance fixture; thorough: 8 bit flips + delete/duplicate/overwrite at every position of all fixtures), foreign CA, identity-certificate signer, spliced signatures, truncations; only ECDSA-P256/SHA-256 signatures (the only kind the crate supports)",
 ]
 
@@ -79,6 +85,8 @@ def run(pid, tier, seed, replay=None):
                         stats["validate_ok" if '"ok":true' in line else "validate_refused"] += 1
         p = os.path.join(common.EVID, f"{pid}.json")
         try:
+            if common.repo_dirty():   # run against a modified tree: the evidence record was left untouched, leave it so
+                raise OSError("dirty")
             with open(p) as fh:
                 ev = json.load(fh)
             ev["coverage"]["real_outcomes"] = stats
